@@ -151,6 +151,16 @@ class Sim:
         self.eng = self.stack.enter_context(engines.loaded(spec))
         self.ref = self.eng.ref
         self._spy()
+        self.event_runid = {}  # tag -> run ID carried by the last event
+        self.rebuild(bumped)
+        self.log.append({'op': ['build', sorted(bumped)], 'step': 0})
+
+    def rebuild(self, bumped=()):
+        '''what FSM._pipeline does: build the schedule from the factories'''
+        import dawgie
+        import dawgie.pl.version
+
+        sched = self.sched
         f = self.eng.factories
         with warnings.catch_warnings():
             warnings.simplefilter('ignore')
@@ -176,11 +186,12 @@ class Sim:
             if n.tag not in self.nodes:
                 self.nodes[n.tag] = n
                 stack.extend(list(n))
+        self.flags = {}
+        self.event_runid = {}
         for i in {i % len(self.ref.tag) for i in bumped}:
             tag = self.ref.tag[i]
             for t in self._targets_of(tag, ['__all__']):
                 self.flags[(tag, t)] = True
-        self.log.append({'op': ['build', sorted(bumped)], 'step': 0})
 
     # ---- plumbing
 
@@ -360,6 +371,41 @@ class Sim:
         self._scan_workers()
         return w
 
+    def status_poll(self, rev_ok=True):
+        '''what worker.Context.abort() does: one status message, one reply'''
+        import dawgie.pl.message as message
+
+        sock = rig.LoopSocket(self.farm.Hand(world.Address('h9', 4002)))
+        message.send(
+            message.make(typ=message.Type.status,
+                         rev=self.rev if rev_ok else 'stale-rev'),
+            sock,
+        )
+        fr = world.frames(sock.transport.data)
+        res = {'frames': fr, 'closed': sock.transport.closed, 'rev_ok': rev_ok}
+        sock.close()
+        return res
+
+    def reload(self, n):
+        '''the farm/schedule side of FSM.load: waiting workers are told to
+        leave, the farm is cleared, a new revision is loaded and built'''
+        import dawgie.context
+
+        self.fsm.active = False
+        waiting = [w for w in self.workers if not w.closed]
+        self.farm.notify_all()
+        self.farm.clear()
+        self._scan_workers()
+        res = {'waiting': waiting,
+               'left_in_farm': list(self.farm._workers)}
+        for u in self.units:
+            u.answered = True  # work of the previous load is abandoned
+        self.rev = f'rev-{n % 3}'
+        dawgie.context.git_rev = self.rev
+        self.rebuild(())
+        self.fsm.active = True
+        return res
+
     def leave(self, i):
         live = [w for w in self.workers if not w.closed]
         if live:
@@ -382,6 +428,7 @@ class Sim:
             elif self.db.target_list:
                 tgts.add(self.db.target_list[t % len(self.db.target_list)])
         for tag in names:
+            self.event_runid[tag] = None
             for t in self._targets_of(tag, tgts):
                 self.flags[(tag, t)] = True
         self.sched.organize(
@@ -509,8 +556,10 @@ class Sim:
             self.sched.unpause()
         elif kind == 'active':
             self.fsm.active = bool(op[1])
-            if not self.fsm.active:
-                pass
+        elif kind == 'status':
+            ev['status'] = self.status_poll(bool(op[1]))
+        elif kind == 'reload':
+            ev['reload'] = self.reload(op[1])
         else:
             raise core.HarnessError(f'unknown op {op}')
         ev['after'] = self.snapshot()
@@ -520,8 +569,10 @@ class Sim:
         if kind == 'rep' and 'unit' in ev:
             u = ev['unit']
             if ev['outcome'] == 'success':
+                fb = any(v in self.ref.feedbacks for v in ev['newset'])
                 for d, t in self.expect_after_success(u, ev['newset']):
                     self.flags[(d, t)] = True
+                    self.event_runid[d] = None if fb else u.runid
             else:
                 for d in self.ref.descendants[u.jobid]:
                     self.flags.pop((d, u.target), None)
